@@ -139,6 +139,9 @@ def _resume_runs(env: Env, out: Outcome, n: int, extra: list[dict]) -> None:
             out.nontrivial((repr(spec), tuple(tr1.actions), tuple(tr2.actions)))
         case = {"resume": {"spec": spec, "seed": seed, "actions1": tr1.actions, "actions2": tr2.actions}}
         rehydrated = {(nm, w.waiter_id) for nm, w in waiting if w.has_requirements or w.requirements}
+        # auto-generated waiter ids are recorded by the step body as auto<type>:<own requirement value>
+        rehydrated |= {(nm, f"auto{ET.TY_ID[w.waiting_for_event]}:{(w.requirements or {}).get('k')!r}") for nm, w in waiting
+                       if (w.has_requirements or w.requirements) and str(w.waiter_id).startswith("waiter_")}
         for v in monitors.mon_c10(tr2, earlier_users=monitors.c10_waiter_users(tr1)):
             v.replay = case
             if v.signature == "C10/resumed_more_than_once" and any(f"'{nm}'" in v.what and f"'{wid}'" in v.what for nm, wid in rehydrated if (nm, wid) in rehydrated):
